@@ -180,6 +180,17 @@ package controller
 //@ mode C16 nosafety
 // C16: every analysis write (PWM sweep, RPM-curve measurement) happens with the initialisation mutex held
 // unless parallel initialisation is enabled, and a whole initialisation sequence is one critical section.
+// Only the initialisation mutex is tracked; other mutexes (e.g. the per-sensor ones) leave the ghost state alone.
+//@ ghost var held gset[int]
+//@ ghost var unlocks int
+//@ extern func (m *sync.Mutex).Lock()
+//@   ensures ref(m) == ref(addrof(InitializationSequenceMutex)) ==> held == old(held)[m := true]
+//@   modifies held if ref(m) == ref(addrof(InitializationSequenceMutex))
+//@   trusted "sync.Mutex: Lock returns with the mutex held by the caller (ghost set held, tracked for InitializationSequenceMutex only); blocking and fairness are not modelled"
+//@ extern func (m *sync.Mutex).Unlock()
+//@   ensures ref(m) == ref(addrof(InitializationSequenceMutex)) ==> held == old(held)[m := false] && unlocks == old(unlocks) + 1
+//@   modifies held if ref(m) == ref(addrof(InitializationSequenceMutex)), unlocks if ref(m) == ref(addrof(InitializationSequenceMutex))
+//@   trusted "sync.Mutex: Unlock releases the mutex (ghost set held, ghost counter unlocks, tracked for InitializationSequenceMutex only)"
 //@ pure serialised() bool = configuration.CurrentConfig.RunFanInitializationInParallel || addrof(InitializationSequenceMutex) in held
 //@ ghost var initRuns int
 //@ pure cfgMap(fan fans.Fan) *map[int]int = fan is *fans.HwMonFan ? fan.(*fans.HwMonFan).Config.PwmMap : (fan is *fans.FileFan ? fan.(*fans.FileFan).Config.PwmMap : fan.(*fans.CmdFan).Config.PwmMap)
